@@ -682,6 +682,11 @@ def pick_race(rng, g, v, profile):
             mv = op['mv']
             others = [c for c in gen.CONSUMERS if c != cons]
             op['cs'] = [g.consumer_req(v, mv, cons)] + ([g.consumer_req(v, mv, rng.choice(others))] if rng.random() < 0.5 else [])
+            if mv >= 28 and rng.random() < profile.get('empty_bias', 0.0):
+                # the move shape: the common consumer is emptied (and another one written) in one POST
+                op['cs'][0]['allocs'] = []
+                if rng.random() < 0.5:
+                    op['cs'].reverse()
         if k == 'aggs_set' and 'mv' in op:
             op['mv'] = rng.choice([39, 39, 19, 18])
             op['gen'] = v.rps.get(op['uuid'], {}).get('gen', 0) if op['mv'] >= 19 else None
@@ -701,6 +706,53 @@ def pick_race(rng, g, v, profile):
         a['c']['allocs'] = [[kk[0], kk[1], max(1, g.amount_for(v, kk, a['c']['uuid'], share=3))]]
         kb = rng.choice(keys)
         b['c']['allocs'] = [[kb[0], kb[1], max(1, v.remaining(kb, b['c']['uuid']) + 1)]]
+    # project / user / consumer-type names no request has used before, the SAME in all racing writes: the records are
+    # created on first use (look-up, then insert), and losing that race must not surface
+    if rng.random() < profile.get('p_new_names', 0.15):
+        tag = rng.randrange(10 ** 6)
+        for o in out:
+            for c in ([o['c']] if o['op'] == 'alloc_put' else o.get('cs', []) if o['op'] in ('alloc_post', 'reshape') else []):
+                c['project'], c['user'] = 'proj-r%d' % tag, 'user-r%d' % tag
+                if c.get('ctype') is not None and rng.random() < 0.5:
+                    c['ctype'] = 'CTYPE_R%d' % tag
+    # directed variant: ONE allocation write over two providers, the provider the competing request changes listed
+    # SECOND (the first attempt of `replace_all` has then already bumped the first provider inside the open transaction
+    # when it loses the compare-and-swap on the second; what the retry loop does from there - and what it does when it
+    # runs out of attempts - shows only in this shape)
+    writes = [o for o in out if o['op'] in ('alloc_put', 'alloc_post')]
+    others = [o for o in out if o['op'] not in ('alloc_put', 'alloc_post') and o.get('uuid') in v.rps]
+    if len(writes) == 1 and others and rng.random() < profile.get('p_two_providers', 0.3):
+        tgt = others[0]['uuid']
+        k2 = [kk for kk in v.invs if kk[0] == tgt]
+        k1 = [kk for kk in v.invs if kk[0] != tgt]
+        if k1 and k2:
+            a, b = rng.choice(k1), rng.choice(k2)
+            w = writes[0]
+            c = w['c'] if w['op'] == 'alloc_put' else w['cs'][0]
+            cur = v.consumers.get(c['uuid'])
+            c['gen'] = (cur['gen'] if cur else None) if w['mv'] >= 28 else None
+            c['allocs'] = [[a[0], a[1], max(1, g.amount_for(v, a, c['uuid'], share=3))],
+                           [b[0], b[1], max(1, g.amount_for(v, b, c['uuid'], share=3))]]
+    # directed variant: a reshape that EMPTIES a provider (inventories {} and allocations {} for every consumer on it)
+    # against a generation-guarded change of that provider: the only guard of the provider in the reshape is the final
+    # generation-checked inventory write
+    resh = [o for o in out if o['op'] == 'reshape']
+    others = [o for o in out if o['op'] != 'reshape' and o.get('uuid') in v.rps and 'gen' in o]
+    if resh and others and rng.random() < profile.get('p_empty_reshape', 0.4):
+        tgt = others[0]['uuid']
+        holders = sorted(c for c, lst in v.by_consumer.items() if any(u == tgt for (u, rc, used) in lst))
+        r = resh[0]
+        r['invs'] = [{'uuid': tgt, 'gen': v.rps[tgt]['gen'], 'invs': []}]
+        r['cs'] = []
+        for c in holders:
+            cur = v.consumers.get(c)
+            if cur is None:
+                continue
+            rest = [[u, rc, used] for (u, rc, used) in v.by_consumer.get(c, []) if u != tgt]
+            r['cs'].append({'uuid': c, 'project': cur['project'], 'user': cur['user'],
+                            'ctype': (cur.get('ctype') or 'INSTANCE') if r['mv'] >= 38 else None, 'gen': cur['gen'], 'allocs': rest})
+        if others[0].get('gen') is not None:
+            others[0]['gen'] = v.rps[tgt]['gen']
     return out
 
 
